@@ -131,6 +131,19 @@ check("C18", "Interfaces.tla states which addresses of the host's table a daemon
       RESP_NOTE + " Between a change of the table and the daemon's next interface check both views are accepted (window); timing of the check itself is "
       "C12's business.", RESP_TECH + "; TLC-enumerated (topology, selections) cases replayed into the real daemon", "DESIGN.md section 7 C18")
 
+check("C14", "Lifecycle.tla models the handles and the daemon thread with one step function per atomic step of the code (try_send, try_recv + execution, "
+      "clean-up, drain of the queue, drop of the receiver, Shutdown reply, drop of the daemon state). MCLifecycle checks every interleaving of calls of every "
+      "kind with those steps: clean-up exactly once, everything withdrawn / every search stopped before Shutdown is reported, one Shutdown reply, every call "
+      "after a received Shutdown fails with DaemonShutdown (status(): Shutdown), search-channel protocol, nobody left waiting (NoDangling), Exit always "
+      "served (liveness). MCLifeCases enumerates every schedule (commands of every kind around an Exit, every cut into loop iterations); the driver replays "
+      "them on a real daemon through the gate (also holding the daemon between its last look at the queue and the drop of the receiver) and TraceLifecycle "
+      "runs the same step functions over the trace, comparing after every line the reply channels, events, closed channels and thread liveness with the "
+      "model state. Real client threads against a free-running daemon are judged by TraceThreads on the order-insensitive reading of the same properties.",
+      RESP_NOTE + " The interleaving of a call with the inside of a loop iteration is covered by the model and sampled by the real-thread runs, not replayed "
+      "deterministically, except for the exit window (hook).",
+      "explicit TLA+ life-cycle spec model-checked by TLC (safety + liveness); TLC-enumerated schedules replayed into the real daemon and validated by a trace spec "
+      "that reuses the spec's step functions; real-thread histories validated by a TLC monitor", "DESIGN.md section 7 C14")
+
 def hooks_commits():
     try:
         out = subprocess.run(["git", "-C", "/repo", "log", "--format=%h %s"], stdout=subprocess.PIPE, text=True).stdout
